@@ -379,6 +379,13 @@ class SockRun:
                 if k != 1:
                     del self.in_send[a]
                 if k == 0:
+                    if self.h_closed:
+                        m("send() returned normally although the stream was closed locally before it finished "
+                          "(the transport discards its write buffer: data silently dropped, success reported)")
+                    if self.h_lost == "exc":
+                        m("send() returned normally although the connection was lost (connection_lost(exc)) before it finished")
+                    if d["opened"] and not self.h_closed and self.h_lost != "exc":
+                        self.flags.add("send_released_by_resume_writing")
                     if not d["wrote"]:
                         m("send() returned without handing the item to transport.write()")
                     elif not (d["gate_after_write"] or d["opened"]):
@@ -391,9 +398,13 @@ class SockRun:
                     self.flags.add("send_blocked")
                 elif k == 5:
                     self.flags.add("send_closed_error")
+                    if d["wrote"]:
+                        self.flags.add("send_wait_ended_by_close")
                     if not self.h_closed:
                         m("send() raised ClosedResourceError on a stream that was not closed locally")
                 elif k == 6:
+                    if d["wrote"]:
+                        self.flags.add("send_wait_ended_by_connection_lost")
                     if self.h_lost != "exc" and not self.tr.closing:
                         m("send() raised BrokenResourceError without a connection error")
                 elif k == 2:
@@ -810,7 +821,9 @@ class UnixRun:
                 self.guard_after = bool(guard._guarded)
                 if regs["r"] or regs["w"]:
                     flush_other()
-                if regs["r"] or regs["w"]:
+                if (regs["r"] or regs["w"]) and not self.closing_after:
+                    # (after a local close the done-callbacks leave the registrations to aclose(); an oracle script that
+                    # answers would-block on a closed socket is outside the kernel contract - the close LTS covers that part)
                     self.mon.append("reader/writer registration leaked after the call ended")
                 if loop.errors:
                     self.mon.append(f"loop errors: {loop.errors[:2]}")
@@ -1065,6 +1078,317 @@ def unix_exhaustive(max_len: int):
 
 
 # ------------------------------------------------------------------------------------------------------------
+# Part (a3): UnixLoop close LTS  —  aclose() of the real UNIXSocketStream while a receive() and/or a send() is parked,
+# over a fake raw socket and fake loop registrations that record the add/remove/close order
+# ------------------------------------------------------------------------------------------------------------
+
+C_BEGIN, C_STEP, C_READY, C_CANCEL, C_CALLBACK, C_CLOSE = range(6)
+COPN = {0: "Begin", 1: "Step", 2: "Ready", 3: "Cancel", 4: "Callback", 5: "Close"}
+A_OK, A_BLOCK, A_ERR = range(3)
+DIRN = {0: "receive", 1: "send"}
+
+
+def cops_readable(ops):
+    out = []
+    for c, a in ops:
+        if c == C_STEP:
+            out.append(("Step", DIRN[a // 4], ["kernel: ok", "kernel: would-block", "kernel: error"][a % 4]))
+        elif c == C_CLOSE:
+            out.append(("aclose by a third task",))
+        else:
+            out.append((COPN[c], DIRN[a]))
+    return out
+
+
+class FakeSockC:
+    """Raw socket of the close runs.  defer=True mimics uvloop: close() of a socket that is still registered with the
+    loop only marks the object closed, the descriptor stays open and usable until the last registration is removed."""
+
+    def __init__(self, run):
+        self.run = run
+        self.pyclosed = False
+        self.fd_open = True
+        self.nclose = 0
+        self.family = None
+        self.answer = [A_BLOCK, A_BLOCK]
+
+    def fileno(self):
+        return 99 if self.fd_open else -1
+
+    def close(self):
+        r = self.run
+        self.nclose += 1
+        self.pyclosed = True
+        registered = bool(r.reg[0] or r.reg[1])
+        r.order.append("close" + ("(while registered)" if registered else ""))
+        if registered:
+            r.closed_while_registered = True
+        if not (r.defer and registered):
+            self.fd_open = False
+
+    def shutdown(self, how):
+        pass
+
+    def _answer(self, d, ok):
+        if not self.fd_open:
+            raise OSError(9, "Bad file descriptor")
+        a = self.answer[d]
+        if a == A_OK:
+            return ok
+        if a == A_ERR:
+            raise OSError(104, "injected")
+        raise BlockingIOError()
+
+    def recv(self, n):
+        return self._answer(0, b"x")
+
+    def send(self, view):
+        return self._answer(1, len(view))
+
+
+class UnixCloseRun:
+    def __init__(self, defer: bool):
+        self.defer = bool(defer)
+        self.ops: list[tuple[int, int]] = []
+        self.outs: list[int] = []
+        self.mon: list[str] = []
+        self.flags: set[str] = set()
+        self.reg = [None, None]
+        self.order: list[str] = []
+        self.closed_while_registered = False
+        self.closed_op = False
+
+    def __enter__(self):
+        import anyio
+        from anyio._backends import _asyncio as be
+        from puppet import World
+        self.anyio = anyio
+        self.world = w = World()
+        loop = w.loop
+        run = self
+
+        def add(d):
+            def f(sock, cb, *a):
+                run.reg[d] = (cb, a)
+                run.order.append(("add_reader", "add_writer")[d])
+            return f
+
+        def remove(d):
+            def f(sock):
+                run.order.append(("remove_reader", "remove_writer")[d])
+                if sock.pyclosed and not run.defer:
+                    raise OSError(9, "Bad file descriptor")      # selector loop: the socket object is already closed
+                had = run.reg[d] is not None
+                run.reg[d] = None
+                if sock.pyclosed and sock.fd_open and not (run.reg[0] or run.reg[1]):
+                    sock.fd_open = False                          # the deferred close completes
+                return had
+            return f
+
+        loop.add_reader, loop.add_writer = add(0), add(1)
+        loop.remove_reader, loop.remove_writer = remove(0), remove(1)
+        self._sess = w.session()
+        self._sess.__enter__()
+        self.sock = FakeSockC(self)
+        self.stream = be.UNIXSocketStream(self.sock)
+        for t in (1, 2, 3):
+            w.spawn(t)
+        return self
+
+    def __exit__(self, *a):
+        self.world.close()
+        self._sess.__exit__(*a)
+
+    # -- implementation-side state --
+    def cb_handle(self, d):
+        name = ("_wait_until_readable", "_wait_until_writable")[d]
+        for h in self.world.loop.ready_handles():
+            if name in getattr(h._callback, "__qualname__", ""):
+                return h
+        return None
+
+    def phase(self, d) -> int:
+        p = self.world.puppets[d + 1]
+        if p.at_decision:
+            return 0
+        if self.world.runnable(p):
+            return 2 if p.task.cancelling() else 1
+        return 3
+
+    def state_obs(self):
+        s = self.sock
+        return [int(self.stream._closing), int(s.pyclosed), int(s.fd_open), int(self.reg[0] is not None),
+                int(self.reg[1] is not None), s.nclose, len(self.world.loop.errors), self.phase(0), self.phase(1),
+                int(self.cb_handle(0) is not None), int(self.cb_handle(1) is not None), int(self.closed_while_registered)]
+
+    def possible(self, c, a) -> bool:
+        if c == C_CLOSE:
+            return True
+        d = a // 4 if c == C_STEP else a
+        ph = self.phase(d)
+        if c == C_BEGIN:
+            return ph == 0
+        if c == C_STEP:
+            return ph in (1, 2) and self.cb_handle(d) is None
+        if c == C_READY:
+            return ph == 3 and self.reg[d] is not None
+        if c == C_CANCEL:
+            return ph == 3
+        return self.cb_handle(d) is not None
+
+    def enabled(self):
+        en = [(C_CLOSE, 0)]
+        for d in (0, 1):
+            for c in (C_BEGIN, C_READY, C_CANCEL, C_CALLBACK):
+                if self.possible(c, d):
+                    en.append((c, d))
+            if self.possible(C_STEP, 4 * d):
+                en += [(C_STEP, 4 * d + x) for x in (A_OK, A_BLOCK, A_ERR)]
+        return en
+
+    def do(self, c, a):
+        w, stream = self.world, self.stream
+        res = 11
+        if c == C_BEGIN:
+            if a == 0:
+                async def cmd(p):
+                    return await stream.receive(4)
+            else:
+                async def cmd(p):
+                    return await stream.send(b"m")
+            w.act(a + 1, cmd)
+        elif c == C_STEP:
+            d, ans = a // 4, a % 4
+            self.sock.answer[d] = ans
+            out = w.resume(d + 1)
+            if out is not None and out[0] != "blocked":
+                an = self.anyio
+                if out[0] == "ok":
+                    res = 0
+                elif isinstance(out[1], CancelledError):
+                    res = 2
+                elif isinstance(out[1], an.ClosedResourceError):
+                    res = 5
+                elif isinstance(out[1], an.BrokenResourceError):
+                    res = 6
+                else:
+                    res = 15
+            if self.closed_op:
+                self.flags.add("step_after_close")
+                what = {0: "returned normally", 6: "raised BrokenResourceError", 11: "parked again (blocked)", 15: "raised another error"}
+                if res in what:
+                    self.mon.append(f"{DIRN[d]}() on the locally closed UNIX stream {what[res]} instead of raising ClosedResourceError")
+        elif c == C_READY:
+            cb, args = self.reg[a]
+            cb(*args)
+        elif c == C_CANCEL:
+            w.puppets[a + 1].task.cancel()
+        elif c == C_CALLBACK:
+            w.loop.run_handle(self.cb_handle(a))
+        else:
+            parked = [d for d in (0, 1) if self.phase(d) == 3]
+            if len(parked) == 2:
+                self.flags.add("close_with_both_parked")
+            elif parked:
+                self.flags.add("close_with_one_parked")
+            async def cmd(p):
+                return await stream.aclose()
+            w.act(3, cmd)
+            self.closed_op = True
+        self.ops.append((c, a))
+        self.outs += [res] + self.state_obs()
+        # model-independent monitors
+        m = self.mon.append
+        if self.closed_while_registered and not any("closed while" in x for x in self.mon):
+            m("the raw socket was closed while it was still registered with the event loop (add_reader/add_writer): order "
+              + " > ".join(self.order[-6:]))
+        if self.sock.nclose > 1:
+            m(f"raw socket closed {self.sock.nclose} times")
+        if w.loop.errors and not any("exception handler" in x for x in self.mon):
+            e = w.loop.errors[0]
+            m(f"the loop's exception handler was called: {e.get('message')}: {e.get('exception')!r}")
+        if self.sock.pyclosed and (self.reg[0] or self.reg[1]) and not self.closed_while_registered:
+            m("a closed socket is registered with the loop")
+
+    def quiesce(self):
+        """aclose (if not done), then every callback and every task: nothing may stay blocked, the fd must be closed."""
+        if not self.closed_op:
+            self.do(C_CLOSE, 0)
+        for _ in range(12):
+            progressed = False
+            for d in (0, 1):
+                if self.possible(C_CALLBACK, d):
+                    self.do(C_CALLBACK, d)
+                    progressed = True
+                if self.possible(C_STEP, 4 * d):
+                    self.do(C_STEP, 4 * d + A_BLOCK)      # the worst answer the kernel could give on an open descriptor
+                    progressed = True
+            if not progressed:
+                break
+        for d in (0, 1):
+            if self.phase(d) == 3:
+                self.mon.append(f"{DIRN[d]}() is still blocked after aclose() (no wake-up scheduled): blocked forever")
+        if self.sock.fd_open:
+            self.mon.append("the descriptor is still open after aclose() and all callbacks: the peer never sees EndOfStream")
+
+    def case(self):
+        return [2, int(self.defer)] + [x for op in self.ops for x in op]
+
+
+def close_run_script(defer, ops, quiesce=True):
+    with UnixCloseRun(defer) as r:
+        for c, a in ops:
+            if not r.possible(c, a):
+                r.flags.add("script_diverged")
+                break
+            r.do(c, a)
+        if quiesce:
+            r.quiesce()
+        r.final = list(r.outs)
+        return r
+
+
+def close_random_case(rng: random.Random, nsteps: int):
+    defer = rng.random() < 0.5
+    with UnixCloseRun(defer) as r:
+        for _ in range(nsteps):
+            en = r.enabled()
+            ws = []
+            for c, a in en:
+                wt = {C_BEGIN: 4, C_STEP: 3, C_READY: 1.5, C_CANCEL: 0.7, C_CALLBACK: 4, C_CLOSE: 0.6}[c]
+                if c == C_STEP and a % 4 == A_BLOCK:
+                    wt *= 2.5
+                ws.append(wt)
+            c, a = rng.choices(en, ws)[0]
+            r.do(c, a)
+        r.quiesce()
+        r.final = list(r.outs)
+        return r
+
+
+def close_exhaustive(depth: int, defer: bool):
+    results = []
+
+    def rec(prefix):
+        with UnixCloseRun(defer) as r:
+            for c, a in prefix:
+                r.do(c, a)
+            en = r.enabled()
+            if len(prefix) >= depth:
+                r.quiesce()
+                r.final = list(r.outs)
+                results.append(r)
+                return
+        for (c, a) in en:
+            if c == C_STEP and a % 4 == A_ERR and len(prefix) < depth - 1:
+                continue      # the error answer ends the call like 'ok': keep it for the last position only
+            rec(prefix + [(c, a)])
+
+    rec([])
+    return results
+
+
+# ------------------------------------------------------------------------------------------------------------
 # Part (b): end-to-end on real sockets (subprocesses running c18_sock_e2e.py) and the check itself
 # ------------------------------------------------------------------------------------------------------------
 
@@ -1156,10 +1480,13 @@ def check(tier: str) -> int:
     import time
     rep = core.Report("C18", tier)
     rep.assumptions = core.TRUSTED_BASE_COMMON + [
-        "models boundary/SockProto.v (StreamProtocol + SocketStream.receive/send/send_eof/aclose + ResourceGuard, "
-        "_asyncio.py:1248-1407 at HEAD; variant stepv true = pinned tree before ab750b3) and boundary/UnixLoop.v "
-        "(UNIXSocketStream.receive/send, _RawSocketMixin, :1410-1500) hand-written; cancellation modelled as native "
-        "Task.cancel() on a suspended task",
+        "models boundary/SockProto.v (StreamProtocol + SocketStream.receive/send/send_eof/aclose + ResourceGuard at HEAD; "
+        "variant stepv true = pinned tree before ab750b3 / d2d2221) and boundary/UnixLoop.v (UNIXSocketStream.receive/send/send_eof, "
+        "_RawSocketMixin incl. the close LTS: registrations, done-callbacks, aclose; cstep true = order before e49bd95) "
+        "hand-written; cancellation modelled as native Task.cancel() on a suspended task",
+        "the two loop flavours of the close LTS (selector loop: remove_reader/remove_writer on a closed socket object raises; uvloop: "
+        "closing a registered socket defers the real close) are an abstraction of the observed behaviour of CPython 3.12 asyncio and "
+        "uvloop 0.22, reproduced by the harness' fake loop and checked against both real loops end-to-end",
         "harness (a): real classes over a FAKE transport / FAKE raw socket on SchedLoop (loop.add_reader/add_writer replaced "
         "by recording stubs on the loop instance, in the harness only); (b): real sockets, monitors only",
     ] + NOT_EXHIBITED
@@ -1174,6 +1501,7 @@ def check(tier: str) -> int:
     corpus_dir = core.VERIF / "corpus" / "C18"
     corpus_e2e = []
     uruns_corpus = []
+    cruns = []
     for f in sorted(corpus_dir.glob("*.json")):
         c = json.loads(f.read_text())
         if c.get("kind") == "sockproto":
@@ -1181,9 +1509,11 @@ def check(tier: str) -> int:
         elif c.get("kind") == "unixloop":
             uruns_corpus.append(UnixRun(c["call"], c["cancel0"], c["busy"], c["closing0"], c["mx"], c["item"],
                                         [tuple(e[:2]) + ((tuple(e[2]),) if len(e) > 2 else ()) for e in c["script"]]))
+        elif c.get("kind") == "unixclose":
+            cruns.append(close_run_script(bool(c["defer"]), [tuple(o) for o in c["ops"]]))
         elif c.get("kind") == "e2e":
             corpus_e2e.append(c)
-    n_corpus = len(sruns) + len(uruns_corpus) + len(corpus_e2e)
+    n_corpus = len(sruns) + len(uruns_corpus) + len(corpus_e2e) + len(cruns)
     n_random = 1800 if tier == "quick" else 40000
     for _ in range(n_random):
         sruns.append(sock_random_case(rng, rng.choice([6, 10, 16, 24, 40, 60])))
@@ -1228,6 +1558,23 @@ def check(tier: str) -> int:
             for r, c, e, m in zip(uruns, ucs, uexp, umo) if e != m]
     umon = [(r, msg) for r in uruns for msg in r.mon]
 
+    # ---------------- (a3) UnixLoop close LTS ----------------
+    for _ in range(500 if tier == "quick" else 8000):
+        cruns.append(close_random_case(rng, rng.choice([4, 8, 12, 20, 30])))
+    n_before = len(cruns)
+    for df in (True, False):
+        cruns += close_exhaustive(5 if tier == "quick" else 7, df)
+    n_ex_c = len(cruns) - n_before
+    ccases = [r.case() for r in cruns]
+    cexp = [r.final for r in cruns]
+    cmodel = core.run_driver(exe_u, ccases)
+    cdis = [{"model": "UnixLoop (close LTS)", "defer": r.defer, "ops": [list(o) for o in r.ops], "ops_readable": cops_readable(r.ops),
+             "impl": e, "model_out": m,
+             "first_diff_step": next((i for i in range(min(len(e), len(m))) if e[i] != m[i]), min(len(e), len(m))) // 13}
+            for r, e, m in zip(cruns, cexp, cmodel) if e != m]
+    crejected = sum(1 for m in cmodel for i in range(0, len(m), 13) if m[i] == 9)
+    cmon = [(r, msg) for r in cruns for msg in r.mon]
+
     # ---------------- kernel-checked samples ----------------
     sample_n = 40 if tier == "quick" else 300
     idx = list(range(len(scases)))
@@ -1237,7 +1584,11 @@ def check(tier: str) -> int:
     uidx = list(range(len(ucs)))
     rng.shuffle(uidx)
     uidx = uidx[:sample_n]
-    vm_ok_u, vm_log_u = core.coq_eval_cases("c18u", "UnixLoop", [ucs[i] for i in uidx], [uexp[i] for i in uidx])
+    cidx = list(range(len(ccases)))
+    rng.shuffle(cidx)
+    cidx = cidx[:sample_n // 2]
+    vm_ok_u, vm_log_u = core.coq_eval_cases("c18u", "UnixLoop", [ucs[i] for i in uidx] + [ccases[i] for i in cidx],
+                                            [uexp[i] for i in uidx] + [cexp[i] for i in cidx])
 
     # ---------------- (b) end-to-end ----------------
     e2e = collect_e2e(e2e_procs, tier)
@@ -1248,8 +1599,9 @@ def check(tier: str) -> int:
             e2e_viol.append((d, {"scenario": "run", "what": f"end-to-end run imported anyio from {af}", "params": {}}))
     planned = {(s[0], tuple(s[1])) for d in e2e for s in d.get("facts", {}).get("scenario_s", [])}
     for c in corpus_e2e:
-        if (c["scenario"], (c["direction"], c["mode"])) not in planned:
-            rep.notes.append(f"corpus e2e case {c['scenario']}/{c['mode']}/{c['direction']} was not run")
+        args = tuple(c["args"]) if "args" in c else (c["direction"], c["mode"])
+        if (c["scenario"], args) not in planned:
+            rep.notes.append(f"corpus e2e case {c['scenario']}/{'/'.join(map(str, args))} was not run")
 
     # ---------------- decide ----------------
     seen = set()
@@ -1278,6 +1630,17 @@ def check(tier: str) -> int:
                             "all_messages": r.mon[:6],
                             "replay": "c18.UnixRun(kind, cancel0, busy, closing0, mx, item, script).execute().mon"})
     seen = set()
+    for r, msg in sorted(cmon, key=lambda x: len(x[0].ops)):
+        key = _re.sub(r"\d+", "N", msg)[:60]
+        if key in seen or id(r) in seen or len(seen) >= 10:
+            continue
+        seen.add(key)
+        seen.add(id(r))
+        rep.violation(msg, {"kind": "monitor", "model": "UnixLoop (close LTS)", "loop_flavour": "uvloop-like deferred close" if r.defer else "selector loop",
+                            "defer": r.defer, "ops": [list(o) for o in r.ops], "ops_readable": cops_readable(r.ops),
+                            "registration_and_close_order": r.order[-12:], "all_messages": r.mon[:8],
+                            "replay": "c18.close_run_script(defer, [tuple(o) for o in ops], quiesce=False).mon"})
+    seen = set()
     for d, v in e2e_viol:
         key = (v["scenario"].split("/")[0], v["what"][:40])
         if key in seen or len(seen) >= 6:
@@ -1286,7 +1649,7 @@ def check(tier: str) -> int:
         rep.violation(f"[{d['config'][0]}/{d['config'][1]}] {v['scenario']}: {v['what']}",
                       {"kind": "e2e-monitor", "config": d["config"], "scenario": v["scenario"], "params": v["params"],
                        "seed": core.seed(), "replay_cmd": " ".join(d.get("cmd", []) + [v["scenario"].split("/")[0]])})
-    monitor_hits = len(smon) + len(umon) + len(e2e_viol)
+    monitor_hits = len(smon) + len(umon) + len(cmon) + len(e2e_viol)
     tie_broken = []
     if not proofs_ok:
         tie_broken.append("proof obligation: " + str(rep.coverage.get("proof_failure", {}).get("where")))
@@ -1294,12 +1657,17 @@ def check(tier: str) -> int:
         tie_broken.append("correspondence SockProto.run_case vs StreamProtocol/SocketStream")
     if udis:
         tie_broken.append("correspondence UnixLoop.run_case vs UNIXSocketStream")
+    if cdis:
+        tie_broken.append("correspondence UnixLoop.run_case (close LTS) vs UNIXSocketStream.aclose with parked calls")
+    if crejected:
+        tie_broken.append(f"UnixLoop close LTS rejected {crejected} ops the implementation performed")
     if srejected:
         tie_broken.append(f"SockProto model rejected {srejected} ops the implementation performed")
-    if not (vm_ok_s and vm_ok_u) and not (sdis or udis):
+    if not (vm_ok_s and vm_ok_u) and not (sdis or udis or cdis):
         tie_broken.append("vm_compute sample disagrees with extracted model")
     if tie_broken and not monitor_hits:
-        d = min(sdis, key=lambda d: len(d["ops"])) if sdis else (min(udis, key=lambda d: len(d["case"])) if udis else None)
+        d = min(sdis, key=lambda d: len(d["ops"])) if sdis else (min(udis, key=lambda d: len(d["case"])) if udis else
+                                                                   (min(cdis, key=lambda d: len(d["ops"])) if cdis else None))
         rep.violation("; ".join(tie_broken), {"kind": "tie", "broken": tie_broken, "case": d}, no_input=True)
 
     # ---------------- evidence ----------------
@@ -1310,6 +1678,9 @@ def check(tier: str) -> int:
     for r in uruns:
         for f in r.flags:
             flags["unix:" + f] = flags.get("unix:" + f, 0) + 1
+    for r in cruns:
+        for f in r.flags:
+            flags["close:" + f] = flags.get("close:" + f, 0) + 1
     interesting = {"chunk_split_or_exact", "busy_recv", "busy_send", "send_waited_for_gate", "recv_after_close", "cancel_in_call",
                    "end_of_stream"}
     distinct = len({tuple(c) for c, r in zip(scases, sruns) if r.flags & interesting}) + \
@@ -1330,15 +1701,17 @@ def check(tier: str) -> int:
             "busy_both_directions": f.get("busy"),
             "leftover_after_close": f.get("close_leftover_returned"),
             "send_eof_by_second_task_during_parked_send": f.get("eof_during_send"),
+            "aclose_with_receive_and_send_parked": f.get("close_both_parked"),
+            "send_waiting_when_closed_or_reset": f.get("send_lost"),
             "violations": len(d["violations"]),
             "wall_s": round(sum(s[2] for s in f.get("scenario_s", [])), 1),
         }
     rep.coverage.update({
         "trusted_base": rep.assumptions,
-        "evaluations": len(sruns) + len(uruns) + sum(v["scenarios"] for v in e2e_facts.values()),
-        "programs": len(sruns) + len(uruns),
-        "traces_validated_against_impl": len(sruns) - len(sdis) + len(uruns) - len(udis),
-        "disagreements_checked": len(sdis) + len(udis),
+        "evaluations": len(sruns) + len(uruns) + len(cruns) + sum(v["scenarios"] for v in e2e_facts.values()),
+        "programs": len(sruns) + len(uruns) + len(cruns),
+        "traces_validated_against_impl": len(sruns) - len(sdis) + len(uruns) - len(udis) + len(cruns) - len(cdis),
+        "disagreements_checked": len(sdis) + len(udis) + len(cdis),
         "distinct_nontrivial": distinct,
         "rule": "SockProto: random walk over the ops the implementation enables (idle task: receive/send/send_eof/aclose; suspended "
                 "task: resume if its wake-up is queued, native cancel; transport callbacks at any time, 70% of the cases under the "
@@ -1346,15 +1719,17 @@ def check(tier: str) -> int:
                 "alphabet to a fixed depth.  UnixLoop: random oracle scripts generated by simulating the call (10% contract-violating "
                 "answers), plus every script over an 8-letter alphabet (incl. waits during which other tasks call send/send_eof/send_fds resp. receive/receive_fds on the same stream) up to a fixed length.  Non-trivial = reaches a chunk split, a "
                 "rejected concurrent call, a send waiting for the gate, a call on a closed stream, a cancellation inside a call, "
-                "EndOfStream, a partial send, a would-block wait.  End-to-end: 6 configurations x scenarios on real sockets",
-        "exhaustive_small_scope_cases": {"SockProto": n_ex_s, "UnixLoop": n_ex_u},
+                "EndOfStream, a partial send, a would-block wait.  UnixLoop close LTS: random walks and exhaustive enumeration over "
+                "begin/step(kernel answer)/ready/cancel/done-callback/aclose for one receive and one send on the same stream, both loop "
+                "flavours (selector loop, uvloop-like deferred close), always followed by aclose + all callbacks + all tasks.  End-to-end: 6 configurations x scenarios on real sockets",
+        "exhaustive_small_scope_cases": {"SockProto": n_ex_s, "UnixLoop": n_ex_u, "UnixLoop close LTS": n_ex_c},
         "corpus_cases": n_corpus,
         "reached": flags,
         "op_distribution": opcount,
         "vm_compute_sample": len(idx) + len(uidx),
         "vm_compute_ok": bool(vm_ok_s and vm_ok_u),
         "vm_compute_log": (vm_log_s + vm_log_u)[-1200:],
-        "model_rejected_ops": srejected,
+        "model_rejected_ops": srejected + crejected,
         "unix_scripts_dropped_out_of_fuel_or_invalid": fuel_dropped,
         "monitor_hits": monitor_hits,
         "end_to_end": e2e_facts,
@@ -1365,7 +1740,9 @@ def check(tier: str) -> int:
                  "sock:recv_after_close", "sock:recv_closed_error", "sock:send_closed_error", "sock:end_of_stream",
                  "sock:cancel_in_call", "sock:recv_broken", "unix:partial_send", "unix:would_block", "unix:closed_error",
                  "unix:busy", "unix:cancelled", "unix:recv_eof", "unix:intruder:send", "unix:intruder:send_eof",
-                 "unix:intruder:send_fds", "unix:intruder:receive", "unix:intruder:receive_fds"):
+                 "unix:intruder:send_fds", "unix:intruder:receive", "unix:intruder:receive_fds",
+                 "close:close_with_both_parked", "close:close_with_one_parked", "close:step_after_close",
+                 "sock:send_wait_ended_by_close", "sock:send_wait_ended_by_connection_lost", "sock:send_released_by_resume_writing"):
         if not flags.get(need):
             rep.notes.append(f"generator self-check: predicate {need} never reached")
     return rep.finish()
